@@ -1924,6 +1924,18 @@ fn lossless_big<R: ModeTag, const B: Word>(c: &FlCase, ctx: &Ctx) -> Out {
     expect_value(&mut out, "Relaxed::try_from(FBig)", catch(|| Relaxed::try_from(f.clone()).ok().map(|r| exact_relaxed(&r))), &x);
     expect_value(&mut out, "RBig::try_from(Repr)", catch(|| RBig::try_from(rp.clone()).ok().map(|r| exact_rbig(&r))), &x);
     expect_value(&mut out, "Relaxed::try_from(Repr)", catch(|| Relaxed::try_from(rp.clone()).ok().map(|r| exact_relaxed(&r))), &x);
+    // ... and in the form the target type promises: RBig in lowest terms, Relaxed without a common factor 2
+    if let Ok((Ok(r1), Ok(r2), Ok(l1), Ok(l2))) = catch(|| (RBig::try_from(f.clone()), RBig::try_from(rp.clone()), Relaxed::try_from(f.clone()), Relaxed::try_from(rp.clone()))) {
+        for (what, r) in [("RBig::try_from(FBig)", &r1), ("RBig::try_from(Repr)", &r2)] {
+            let (n, d) = (i2n(r.numerator()), BigInt::from(u2n(r.denominator())));
+            let g = num_integer::Integer::gcd(&n, &d);
+            out.check(g.is_one() && d.is_positive(), || format!("{what} of {xs}: RBig stored as {}/{}, not in lowest terms (gcd {})", show_i(&n), show_i(&d), show_i(&g)));
+        }
+        for (what, r) in [("Relaxed::try_from(FBig)", &l1), ("Relaxed::try_from(Repr)", &l2)] {
+            let (n, d) = (i2n(r.numerator()), BigInt::from(u2n(r.denominator())));
+            out.check(d.is_positive() && !(num_integer::Integer::is_even(&n) && num_integer::Integer::is_even(&d)), || format!("{what} of {xs}: Relaxed stored as {}/{} keeps a common factor 2", show_i(&n), show_i(&d)));
+        }
+    }
     // the same value as a rational -> integers, primitives, and back into a float
     let (n, d) = sci.num_den();
     let r = RBig::from_parts(n2i(&n), n2u(&d));
